@@ -19,8 +19,17 @@ def tabToStr (tb : Tableau) : String :=
   let row (l : List Float) := joinWith "," (l.map fToStr)
   joinWith " " [joinWith ";" (tb.a.map row), row tb.b, row tb.c, match tb.bstar with | none => "none" | some bs => row bs]
 
+/-- `k` views of an orbit: `<frame name> y0..y5` each -/
+def parseViews : Nat → List String → Option (List (String × List Float) × List String)
+  | 0, rest => some ([], rest)
+  | k + 1, name :: rest => do
+    let (fs, rest) ← takeFloats 6 rest
+    let (vs, rest) ← parseViews k rest
+    pure ((name, fs) :: vs, rest)
+  | _ + 1, [] => none
+
 /-- operations of a `c06seq` history, one after the other: `sm <name>` | `ss <f>` | `st <f>` | `sb <k> <bodies…>` | `ab <body>` | `db` |
-`cp` | `mk <h> <y0..y5>` | `rb`.  `fuel` bounds the number of operations. -/
+`cp` | `mk <h> <y0..y5>` | `rb` | `sf <frame>` | `bd <k> <views…>` | `sd <h>` | `ro`.  `fuel` bounds the number of operations. -/
 def parseOps : Nat → List String → Option (List Op)
   | 0, [] => some []
   | 0, _ => none
@@ -42,6 +51,14 @@ def parseOps : Nat → List String → Option (List Op)
   | f + 1, "db" :: rest => (parseOps f rest).map (Op.dropBody :: ·)
   | f + 1, "cp" :: rest => (parseOps f rest).map (Op.copy :: ·)
   | f + 1, "rb" :: rest => (parseOps f rest).map (Op.readButcher :: ·)
+  | f + 1, "ro" :: rest => (parseOps f rest).map (Op.readOrbit :: ·)
+  | f + 1, "sf" :: m :: rest => (parseOps f rest).map (Op.setFrame m :: ·)
+  | f + 1, "sd" :: x :: rest => do let h ← fOfStr? x; let r ← parseOps f rest; pure (Op.stepBound h :: r)
+  | f + 1, "bd" :: k :: rest => do
+    let k ← k.toNat?
+    let (vs, rest) ← parseViews k rest
+    let r ← parseOps f rest
+    pure (Op.bind vs :: r)
   | f + 1, "mk" :: rest => do
     let (fs, rest) ← takeFloats 7 rest
     let r ← parseOps f rest
@@ -56,11 +73,16 @@ def outToStr (c : Cfg) (op : Op) : String :=
   | .quiet => "q"
   | .keyError => "unknown-name"
   | .indexError => "index-error"
+  | .unknownFrame => "unknown-frame"
+  | .attrError => "attribute-error"
+  | .orbit none => "none"
+  | .orbit (some (f, y)) => f ++ " " ++ fsToStr y
   | .tableau tb => tabToStr tb
   | .stepped r =>
-    let errs := match op, butcher c.method with
-      | .makeStep y h, some tb => fsToStr (makeStepErrs (fun _ y => accel c.bodies y) tb c.step c.tol 0.0 y maxIter h)
-      | _, _ => ""
+    let errs := match op, butcher c.method, c.bound with
+      | .makeStep y h, some tb, _ => fsToStr (makeStepErrs c.field tb c.step c.tol 0.0 y maxIter h)
+      | .stepBound h, some tb, some (_, y) => fsToStr (makeStepErrs c.field tb c.step c.tol 0.0 y maxIter h)
+      | _, _, _ => ""
     match r with
     | some (h', y') => fsToStr (h' :: y') ++ " | " ++ errs
     | none => "runtime-error | " ++ errs
@@ -77,13 +99,15 @@ def optNatToStr : Option Nat → String
 /-- `c06accel <k> <bodies…> <y0..y5>` → six floats (`_accel` with k point-mass bodies)
     `c06step <method> <maxStep> <h> <tol> <mu> <y0..y5>` → `h' y0..y5 | p_error of every pass` | `runtime-error | …` | `unknown-name` (`_make_step`, central body)
     `c06tab <method>` → the tableau: rows of a separated by `;`, then b, c, b_star
-    `c06seq <method> <step> <tol> <k> <bodies…> <operations…>` → the replies of a history on one object `KeplerNum(step, bodies, method=, tol=)`, separated by ` ; `
+    `c06seq <method> <frame> <step> <tol> <k> <bodies…> <operations…>` → the replies of a history on one object `KeplerNum(step, bodies, method=, tol=)`, separated by ` ; `
     `c06iter <epoch> <start> <stop> <datesGiven> <stepGiven> <listening> <real steps…>` (µs; flags 0/1) →
        `<pos dates|none> <main dates> <interp> <order pos> <order main> <calls>` | `fuel` (`KeplerNum._iter` bookkeeping)
+    `c06norm <epoch> <startGiven> <start> <stopIsDelta> <stop>` → `<start> <stop>` as `_iter` receives them (`NumericalPropagator.iter`)
+    `c06target <epoch> <delta>` → `<start> <stop>` of `propagate(timedelta)`
     `c06graph <recv> <next> <n1> <n2> …` → identities of the propagators of the points of successive outputs of `n1`, `n2`, … points
     `c06reqs <k> <p0 … pk-1> <c|n|p><i> …` → which orbit's trajectory each consume (`n`) / propagate (`p`) returns, orbit `i` carrying the propagator `pi` (identities from `c06graph`) -/
 def handle : List String → Option String
-  | "c06seq" :: method :: rest => some <|
+  | "c06seq" :: method :: frame :: rest => some <|
     match takeFloats 2 rest with
     | some ([step, tol], k :: rest) =>
       match k.toNat? with
@@ -94,7 +118,7 @@ def handle : List String → Option String
         | some (bodies, rest) =>
           match parseOps rest.length rest with
           | none => "bad-op"
-          | some ops => joinWith " ; " (seqToStrs (Cfg.init step bodies method tol) ops)
+          | some ops => joinWith " ; " (seqToStrs (Cfg.init step bodies method tol frame) ops)
     | _ => "bad-op"
   | "c06graph" :: rest => some <|
     match rest.mapM String.toNat? with
@@ -119,6 +143,19 @@ def handle : List String → Option String
             (fun r => match r with | some i => toString i | none => "unbound"))
         else "ill-formed"
       | _, _ => "bad-op"
+  | "c06norm" :: rest => some <|
+    match takeInts 5 rest with
+    | some ([epoch, sg, start, rel, stop], []) =>
+      let start' := if sg != 0 then start else epoch
+      let stop' := if rel != 0 then Generated.KNIterSrc.relStop epoch start' stop else stop
+      toString start' ++ " " ++ toString stop'
+    | _ => "bad-op"
+  | "c06target" :: rest => some <|
+    match takeInts 2 rest with
+    | some ([epoch, delta], []) =>
+      let d := Generated.KNIterSrc.relTarget epoch delta
+      toString d ++ " " ++ toString d
+    | _ => "bad-op"
   | "c06iter" :: rest => some <|
     match takeInts 6 rest with
     | some ([epoch, start, stop, dg, sg, ls], rs) =>
